@@ -1,8 +1,8 @@
 """Which suites, theorems and extracted data decide which property."""
-from . import dhcpwire, pool, dhcp
+from . import dhcpwire, pool, dhcp, acl
 
 SUITES = {}
-for cls in [dhcpwire.DhcpRoundTrip, dhcpwire.DhcpParse, dhcpwire.Frame, dhcpwire.BroadcastFlag, pool.PoolHistory, dhcp.DhcpHistory]:
+for cls in [dhcpwire.DhcpRoundTrip, dhcpwire.DhcpParse, dhcpwire.Frame, dhcpwire.BroadcastFlag, pool.PoolHistory, dhcp.DhcpHistory, acl.AclSuite, acl.LeaseJson]:
     SUITES[cls.name] = cls()
 
 TRUSTED_BASE = [
@@ -65,8 +65,21 @@ PROPS = {
         rule=DHCP_RULE + " || " + POOL_RULE, assumptions=POOL_ASSUME, trusted=POOL_TRUST + DHCP_TRUST,
     ),
     "C20": dict(
-        suites=[("pool", 2500, 60000)],
+        suites=[("pool", 2000, 40000), ("leasejson", 2500, 60000)],
         extracted=["pool.metricsSql", "pool.metricsReturnOrder"],
-        rule=POOL_RULE, assumptions=POOL_ASSUME, trusted=POOL_TRUST,
+        rule=POOL_RULE + " || lease tables of 0..8 rows with client ids of 0..255 arbitrary octets and option blobs whose host-name "
+             "option is drawn from quotes, backslashes, every control character, DEL, invalid UTF-8, U+2028 and random octets, "
+             "rendered by http::leases_json and read back by a strict RFC 8259 parser; non-trivial = at least one row",
+        assumptions=POOL_ASSUME + ["String::from_utf8_lossy (Rust std) decodes the host-name octets; the harness reports the decoded scalar values"],
+        trusted=POOL_TRUST,
+    ),
+    "C08": dict(
+        suites=[("acl", 4000, 100000)],
+        extracted=["acl.httpArms", "acl.dnsAclFirst"],
+        rule="rule lists of 0..6 rules (subnet lists over IPv4/IPv6 prefixes of every length with and without host bits, "
+             "::ffff:a.b.c.d/(96+n) prefixes, unix flag, all 16 permission subsets) x clients at and around every prefix boundary "
+             "(IPv4, IPv6, v4-mapped, unix) x 4 operations through acl::require_permission; non-trivial = at least one rule",
+        assumptions=["the HTTP router and the DNS entry point are tied by extraction of their match arms / statement order (they need live sockets to execute)"],
+        trusted=[],
     ),
 }
